@@ -243,8 +243,8 @@ func c05Codes(r *eng.Run) []*c07Sys {
 
 func init() {
 	checks["C05"] = eng.Check{
-		Hist: true,
-		Rule: "every block of <=3 (thorough 4) instructions over an 18-word alphabet chosen around the dependency rules (three writers of x1, reader, read-modify-write, sd/ld on one base with and without a shared register, a partially overlapping sb, fence, ecall, csrrw, amoadd.w, the pseudo-jumps jal x5,+4 and beq x0,x0,+4, auipc), optionally ended by a real terminating beq/jal, followed by nops: explicit-state search over ALL orders reachable through accepted Block.Move calls (state = order; successor = fresh real code + replay + move); every reachable order is run in the real emulator from 3 initial states (aliasing and non-aliasing addresses, all registers preloaded) until pc leaves the block or a horizon, and compared (registers, writable-memory bytes, final pc, termination) with the run of the original order. A second pass walks ONE long-lived instance through a depth-2 (thorough 3) tour of accepted, rejected and undo moves and runs the emulator comparison in every node. Block moves on the 4 multi-block codes of C07: every pair of Code.Move calls leaves each instruction's address, text and single-step behaviour unchanged. Non-trivial = block with more than one reachable order.",
+		Hist:        true,
+		Rule:        "every block of <=3 (thorough 4) instructions over an 18-word alphabet chosen around the dependency rules (three writers of x1, reader, read-modify-write, sd/ld on one base with and without a shared register, a partially overlapping sb, fence, ecall, csrrw, amoadd.w, the pseudo-jumps jal x5,+4 and beq x0,x0,+4, auipc), optionally ended by a real terminating beq/jal, followed by nops: explicit-state search over ALL orders reachable through accepted Block.Move calls (state = order; successor = fresh real code + replay + move); every reachable order is run in the real emulator from 3 initial states (aliasing and non-aliasing addresses, all registers preloaded) until pc leaves the block or a horizon, and compared (registers, writable-memory bytes, final pc, termination) with the run of the original order. A second pass walks ONE long-lived instance through a depth-2 (thorough 3) tour of accepted, rejected and undo moves and runs the emulator comparison in every node. Block moves on the 4 multi-block codes of C07: every pair of Code.Move calls leaves each instruction's address, text and single-step behaviour unchanged. Non-trivial = block with more than one reachable order.",
 		Assumptions: []string{"differential oracle: original order vs reordered order on the same emulator", "all registers are preloaded so the known narrow-first-read finding of C03 cannot influence the comparison"},
 		Run: func(r *eng.Run) {
 			codes := c05Codes(r)
